@@ -208,6 +208,7 @@ class Multiprocessor(Filter[Iterable[Any], Iterable[Any]]):
             self._poison       = None
             self._main_err     = False
             self._load_stopper = Stopper() #this works because the loader is a thread which means we have shared memory
+            n_procs_lock       = mt.Lock() #filter_finished_or_failed runs on one thread per process
 
             load_line   = SourceSink(IterableSource(items), self._load_stopper, pickler, in_put)
             filter_line = SourceSink(in_get, setter, unpickler, get_max, Safe(Foreach(self._filter)), out_put)
@@ -235,12 +236,13 @@ class Multiprocessor(Filter[Iterable[Any], Iterable[Any]]):
                 if not worker.poisoned and not self._exceptions and worker.exitcode == 0:
                     MyProcessLine(worker.pipeline,filter_finished_or_failed,read_waiters).start()
                 else:
-                    self._n_procs -= 1
-                    if self._n_procs == 0:
-                        try:
-                            out_put.write([self._poison])
-                        except ValueError: #pragma: no cover
-                            pass
+                    with n_procs_lock:
+                        self._n_procs -= 1
+                        if self._n_procs == 0:
+                            try:
+                                out_put.write([self._poison])
+                            except ValueError: #pragma: no cover
+                                pass
 
             load_thread = ThreadLine(load_line,loader_finished_or_failed)
             filt_procs  = [MyProcessLine(filter_line,filter_finished_or_failed,read_waiters) for _ in range(self._n_procs)]
